@@ -29,6 +29,8 @@ def main(argv=None):
     ap.add_argument("--root", default=None)
     a = ap.parse_args(argv)
     pid = a.prop.upper()
+    if a.root and not os.environ.get("VERIF_OUTDIR"):
+        os.environ["VERIF_OUTDIR"] = a.root        # analysing another tree must never overwrite /verif/evidence or /verif/out
     try:
         seed = int(os.environ.get("VERIF_SEED", "0"))
     except ValueError:
